@@ -115,7 +115,10 @@ CHECKS = {
             "Kernel-checked theorems: C01_roundtrip_partial (for every well-formed reference-free type, every conforming value, every "
             "buffer image and every placement with room: the view reads back exactly the written value, a capacity as the empty "
             "string), C01_read_local (the value depends only on the bytes of the object's own extent), "
-            "C01_stable_under_other_writes, C01_capacity_reads_empty. No bound on nesting depth, dimensions or sizes.",
+            "C01_stable_under_other_writes, C01_capacity_reads_empty, C01_part_is_written (each field / item of a written object is a "
+            "written object at its offset, so every statement descends to any depth), C01_read_leaf_at_path (the bytes at the address "
+            "of the scalar element at the end of any nested path are that element's value: what a leaf accessor and a C getter load). "
+            "No bound on nesting depth, dimensions or sizes.",
             "Partial: references, union references and construction from existing xobjects are covered by the executable model's "
             "tie and the oracle only; input-form normalisation (nested lists / ndarray / dict -> canonical value; index order -> "
             "memory order) is executable glue tied on every case.",
